@@ -2,7 +2,7 @@
    `exact`, so it is checked to be convertible with it); proofs in RcP.v (strong side) and RcWeakP.v (weak side) *)
 From Coq Require Import ZArith List Bool Lia Arith.
 Import ListNotations.
-Require Import Params StateW DisposeW ModularW StateP ModularP RcDepthP RcEpochP RcStampP RcSnapCheck RcSnapP RcSnapInvP RcWSnapInvP Rc RcSpec RcP RcWeakP RcRunOkEx.
+Require Import RcPinnedP Params StateW DisposeW ModularW StateP ModularP RcDepthP RcEpochP RcStampP RcSnapCheck RcSnapP RcSnapInvP RcWSnapInvP Rc RcSpec RcP RcWeakP RcRunOkEx.
 Local Open Scope Z_scope.
 
 (* the WeakSnapshot half of the property (RcSpec.C03_wsnap_statement) is stated in RcSpec.v and NOT proved *)
@@ -103,3 +103,21 @@ Theorem C03_final_example_state :
        end = true.
 Proof. exact RcRunOkEx.ex3_state. Qed.
 Print Assumptions C03_final_example_state.
+
+(* ---- H2 only where the model lacks the pin (RcPinnedP.v): the run hypothesis `pinned` (epochs carried by frames are within one
+   of the global epoch) is DERIVED for every thread that is inside a critical section - the epoch was read after the pin and the
+   section holds the clock - and remains an assumption (`pinned_out`, run_ok') only for threads outside one: deferred functions
+   run by an unpinned collector and guard-less operations, where the real code pins internally and the model does not *)
+Theorem C03_wsnap_H2_outside_sections_only :
+  forall (s0 : state) (sched : list (nat * list Z)),
+       run_ok' s0 sched -> wsnap_valid (RcDepthP.mrun s0 sched).
+Proof. exact RcPinnedP.C03_wsnap'. Qed.
+Print Assumptions C03_wsnap_H2_outside_sections_only.
+
+Theorem C03_final_H2_outside_sections_only :
+  forall (s0 : state) (sched : list (nat * list Z)),
+       run_ok' s0 sched ->
+       let s := RcDepthP.mrun s0 sched in
+       forall (o : nat) (ob : obj), geto s o = Some ob -> 0 < wowners s o -> freed ob = false.
+Proof. exact RcPinnedP.C03_final'. Qed.
+Print Assumptions C03_final_H2_outside_sections_only.
